@@ -13,7 +13,8 @@ RULE = ("pure part: path templates from the corpus, from a grammar of the AIP cl
         "spaces, percent signs, unicode, '/' and newlines. One case = one (template, value) pair, distinct by canonical JSON, "
         "non-trivial when the template has a named segment. Implicit part: structured http path templates (0-3 variables, dotted and "
         "reserved names, sub-patterns) and noisy strings. End to end: generated APIs (explicit rules of 1-4 parameters with shared "
-        "keys, nested and reserved fields, no template / class templates; implicit rules incl. custom http patterns; no rule; one fixed API "
+        "keys, nested and reserved fields, no template / class templates; implicit rules incl. custom http patterns; no rule; paginated "
+        "methods listed over three pages with the header checked on every request; one fixed API "
         "through the alternative Ads template tree, sync gRPC only), each method called through the "
         "sync gRPC, asyncio gRPC and REST clients against loopback servers with 4-6 request valuations; one case = one "
         "(method, request, transport) call.")
@@ -225,12 +226,16 @@ def build_api(r, methods):
         req.field(n, i, "string")
     req.field("sub", 8, sub.fqn)
     req.field("payload", 9, "string")
+    req.field("page_size", 10, "int32").field("page_token", 11, "string")
     resp = f.message("RouteResponse")
     resp.field("ok", 1, "string")
+    lresp = f.message("ListRoutesResponse")       # with page_size/page_token in the request: a paginated method
+    lresp.field("items", 1, "string", repeated=True).field("next_page_token", 2, "string")
     svc = f.service("Router", host="library.example.com")
     for m in methods:
         custom = m["http"][0] == "custom"
-        svc.rpc(m["name"], req.fqn, resp.fqn, cs=bool(m.get("cs")), http=None if custom else tuple(m["http"]), body=m.get("body"),
+        svc.rpc(m["name"], req.fqn, lresp.fqn if m.get("paged") else resp.fqn, cs=bool(m.get("cs")),
+                http=None if custom else tuple(m["http"]), body=m.get("body"),
                 routing=[tuple(p) for p in m["params"]] if m["kind"] == "explicit" else None)
         if custom:      # custom { kind: "HEAD" path: "..." } as the primary binding
             from google.api import annotations_pb2
@@ -276,6 +281,9 @@ def gen_methods(r, n):
                         "vars": vars_})
         else:
             out.append({"name": name, "kind": "none", "params": [], "http": ("post", f"/v1/n{j}:plain"), "body": "*"})
+    for m in out:
+        if m["http"][0] != "custom" and r.random() < 0.3:
+            m["paged"] = True          # listed page by page: every request of the listing must carry the header
     return out
 
 
@@ -486,6 +494,25 @@ def observed_headers(rec, transport):
     return [v for k, v in calls[0]["metadata"] if k == ROUTING_KEY]
 
 
+def observed_all(rec, transport):
+    """The routing-header values of EVERY request the server received for this client call."""
+    if transport == "rest":
+        return [[v for k, v in c["headers"] if k.lower() == ROUTING_KEY] for c in rec.get("http_calls") or []]
+    return [[v for k, v in c["metadata"] if k == ROUTING_KEY] for c in rec.get("grpc_calls") or []]
+
+
+PAGES = [(["a", "b"], "tok2"), (["c"], "tok3"), ([], "")]      # three requests per listing
+
+
+def pager_ok(fn):
+    """T1: the pager that wraps a paged response gets the call's metadata (it re-sends it with every further page)."""
+    for n in ast.walk(fn):
+        if isinstance(n, ast.Call) and isinstance(n.func, ast.Attribute) and isinstance(n.func.value, ast.Name) and n.func.value.id == "pagers":
+            kw = {k.arg: ast.unparse(k.value) for k in n.keywords}
+            return kw.get("metadata") == "metadata" and kw.get("request") == "request" and kw.get("method") == "rpc", kw
+    return None, {}
+
+
 def run_e2e(ctx, n_apis, nreq, reserved, tag="e2e", fixed=None):
     jobs = []
     for i in range(n_apis):
@@ -521,6 +548,11 @@ def run_e2e(ctx, n_apis, nreq, reserved, tag="e2e", fixed=None):
             except Exception as e:  # noqa
                 ctx.oblige(f"T1 e2e #{i} {m['name']}: extraction of the routing block", False, f"{type(e).__name__}: {e}", "T1")
                 continue
+            if m.get("paged"):
+                for label, fn in (("client.py", sync_m[py]), ("async_client.py", async_m[py])):
+                    ok, kw = pager_ok(fn)
+                    ctx.oblige(f"T1 e2e #{i} {m['name']} ({label}): the pager is built with method=rpc, request=request, metadata=metadata",
+                               bool(ok), f"keywords {kw}", "T1")
             M = method_term(m)
             checks.append((f"e2e#{i} {m['name']}: emitted block (client.py) = model", f"res_eqb emitted_eqb (emit_sync {M}) (Ok {emitted_term(ks, its)})"))
             checks.append((f"e2e#{i} {m['name']}: emitted block (async_client.py) = model", f"res_eqb emitted_eqb (emit_async {M}) (Ok {emitted_term(ka, ita)})"))
@@ -551,6 +583,9 @@ def run_e2e(ctx, n_apis, nreq, reserved, tag="e2e", fixed=None):
         gen.materialize(res, d)
         D = dyn.Dyn(req)
         calls, meta = [], []
+        lfqn = req_fqn.rsplit(".", 1)[0] + ".ListRoutesResponse"
+        page_msgs = [D.b64(D.new(lfqn, items=items, next_page_token=tok)) for items, tok in PAGES]
+        page_json = [json.dumps({"items": items, "nextPageToken": tok}) for items, tok in PAGES]
         for mi, m in enumerate(methods):
             r = env.rng(f"C06-req-{i}", mi)
             if m.get("cs"):
@@ -560,10 +595,15 @@ def run_e2e(ctx, n_apis, nreq, reserved, tag="e2e", fixed=None):
                 for p, v in vals.items():
                     set_path(msg, p, v)
                 for tr in (("grpc", "grpc_asyncio") if m["http"][0] == "custom" else ("grpc", "grpc_asyncio", "rest")):
-                    calls.append({"service_module": "router", "client": "RouterAsyncClient" if tr == "grpc_asyncio" else "RouterClient",
-                                  "transport": tr, "method": snake(m["name"]),
-                                  "request": {"mode": "message", "cls": PKG + ".types:RouteRequest", "b64": D.b64(msg)},
-                                  "call_kwargs": {"retry": "none", "timeout": 10.0}})
+                    spec = {"service_module": "router", "client": "RouterAsyncClient" if tr == "grpc_asyncio" else "RouterClient",
+                            "transport": tr, "method": snake(m["name"]),
+                            "request": {"mode": "message", "cls": PKG + ".types:RouteRequest", "b64": D.b64(msg)},
+                            "call_kwargs": {"retry": "none", "timeout": 10.0}}
+                    if m.get("paged"):      # a listing of three pages: the servers answer with next_page_token until the last one
+                        spec["consume"] = "pager"
+                        spec["grpc_script"] = {"/google.example.library.v1.Router/" + m["name"]: [{"messages": [b]} for b in page_msgs]}
+                        spec["http_script"] = [{"status": 200, "body": b} for b in page_json]
+                    calls.append(spec)
                     meta.append((m, vals, tr))
         try:
             out = gen.impl("drive", {"root": d, "package": PKG, "calls": calls}, timeout=900)
@@ -598,9 +638,26 @@ def run_e2e(ctx, n_apis, nreq, reserved, tag="e2e", fixed=None):
                     deferred.append((what, case, "routing.newline_value"))
                 else:
                     ctx.violation(what, case)
+            if m.get("paged"):
+                every = observed_all(rec, tr)
+                ctx.features[f"e2e:paged-listing:{tr}"] += 1
+                if len(every) != len(PAGES) or not rec.get("ok"):
+                    ctx.violation(f"{m['name']} via {tr}: a listing of {len(PAGES)} pages made {len(every)} requests ({rec.get('error')})", case)
+                for k, o_k in enumerate(every):
+                    if o_k != want_l:
+                        what = (f"{m['name']} via {tr}: request {k + 1} of a {len(PAGES)}-page listing carried {ROUTING_KEY}={o_k}, "
+                                f"the property requires {want_l} on every call, for request {vals}")
+                        if has_nl:
+                            deferred.append((what, case, "routing.newline_value"))
+                        else:
+                            ctx.violation(what, case)
+                        break
+                obs = every       # sync / asyncio / REST must agree on the whole listing
             seen.setdefault((m["name"], json.dumps(vals, sort_keys=True)), {})[tr] = obs
             if tr == "grpc":
                 attr_vals = [(".".join(c + "_" if c in reserved else c for c in p.split(".")), v) for p, v in vals.items()]
+                if m.get("paged"):
+                    obs = obs[0] if obs else []
                 o = "None" if not obs else f"(Some {coq.s(obs[0])})"
                 checks.append((f"e2e#{i} {m['name']} {vals!r}: header seen by the gRPC server = model",
                                f"res_eqb (option_eqb String.eqb) (header_of {method_term(m)} (req_of {coq.pairs(attr_vals)})) (Ok {o})"
@@ -770,6 +827,10 @@ def corpus_methods():
          "http": ("post", "/v1/c:route"), "body": "*"},
         {"name": "RouteD", "kind": "explicit", "params": [], "http": ("post", "/v1/{name=**}:route"), "body": "*"},
         {"name": "RouteE", "kind": "none", "params": [], "http": ("post", "/v1/e:plain"), "body": "*"},
+        {"name": "RouteK", "kind": "implicit", "params": [], "http": ("get", "/v1/{parent=shelves/*}/books"), "body": None, "vars": ["parent"], "paged": True,
+         "requests": [{"parent": "shelves/s1"}]},
+        {"name": "RouteL", "kind": "explicit", "params": [("table_name", "{routing_id=projects/*}/**"), ("app_profile_id", None)],
+         "http": ("post", "/v1/l:list"), "body": "*", "paged": True, "requests": [{"table_name": "projects/p1/tables/t", "app_profile_id": "a b"}]},
         {"name": "RouteI", "kind": "implicit", "params": [], "http": ("custom", "/v1/{name=things/*}"), "body": None, "vars": ["name"]},
         {"name": "RouteJ", "kind": "implicit", "params": [], "http": ("custom", "/v1/{sub.name=shelves/*}/x/{sub.class}"), "body": None,
          "vars": ["sub.name", "sub.class"], "custom_kind": "OPTIONS"},
